@@ -9,6 +9,13 @@ CLAIMS = {
         "note": "Trusted: the std models of E2 (validated every run against the native build on sampled paths), z3, rustc's MIR. Outside: the generated element parsers, inputs longer than the bounds, stack depth, memory exhaustion.",
         "technique": "SMT-based bounded symbolic execution of MIR (z3), native replay of counterexamples",
     },
+    "C13": {
+        "engine": "E2-mirsym",
+        "text": "One-step inductive check by bounded symbolic execution: from every reachable list of <= 3 uniquely named items (symbolic names) one arbitrary operation with symbolic arguments is executed on the real ItemList code (MIR) and compared with a vector-of-names reference model; the representation invariant (name index <-> positions) is re-established and no panic is reachable. Covers histories of any length over lists <= 3.",
+        "design_ref": "DESIGN.md section 4 C13",
+        "note": "Trusted: HashMap association-list model (std HashMap itself is not verified), other E2 std models, z3. Outside: lists longer than 3, names longer than one byte, duplicate names.",
+        "technique": "SMT-based bounded symbolic execution of MIR (z3), inductive step over symbolic pre-states, native replay",
+    },
 }
 
 _PENDING = "check not built yet in this revision of /verif (see DESIGN.md section 7 for the order of work)"
